@@ -7,7 +7,7 @@ non-null position yields null at exactly that position plus one error with
 that response path; siblings are not disturbed (no null propagation).
 """
 from .workload import ENUM_VALUES, effective_kwargs, excluded, named
-from .world import obj_type
+from .world import MAP_PATH, MapObj, obj_type
 
 _ENUM_NAME = {internal: name for name, internal in ENUM_VALUES}
 
@@ -147,9 +147,17 @@ class Model:
             exp.arg_errors += 1
             exp.uncalled.add(path)
             return None
+        fdef = self.spec.fields[node.name]
+        if self.spec.objrepr == "map" and isinstance(obj, MapObj) and \
+                self.spec.behaviours.get((tname, node.name)) == "default":
+            # served by the default resolver's key lookup on a mapping-shaped
+            # parent: no resolver body runs, nothing can be injected there
+            exp.uncalled.add(path)
+            raw = self.world.field_value(obj, tname, node.name, {}, MAP_PATH,
+                                         None)
+            return self.complete(fdef.type, raw, path, nodes, faultable=False)
         exp.invoked.append(path)
         exp.positions.append((path, "field"))
-        fdef = self.spec.fields[node.name]
         seq = None
         if serial:
             self.seq += 1
@@ -181,10 +189,10 @@ class Model:
         return self.complete(fdef.type, raw, path, nodes)
 
     # -- CompleteValue ------------------------------------------------------
-    def complete(self, t, value, path, nodes):
+    def complete(self, t, value, path, nodes, faultable=True):
         exp = self.exp
         if t[0] == "NN":
-            r = self.complete(t[1], value, path, nodes)
+            r = self.complete(t[1], value, path, nodes, faultable)
             if r is None:
                 exp.errors.append({
                     "path": path, "kind": "nonnull", "message": None,
@@ -200,8 +208,10 @@ class Model:
                 exp.max_list = len(items)
             out = []
             for i, item in enumerate(items):
-                exp.positions.append((path + (i,), "item"))
-                out.append(self.complete(t[1], item, path + (i,), nodes))
+                if faultable:
+                    exp.positions.append((path + (i,), "item"))
+                out.append(self.complete(t[1], item, path + (i,), nodes,
+                                         faultable))
             return out
         base = t[1]
         if self.spec.is_composite(base):
